@@ -4,7 +4,7 @@
 
 use crate::glue;
 use crate::monitor::panic::{catch, Ended, PanicInfo};
-use crate::monitor::reader::{ContractReader, RLog, SeamReader, SegmentedReader};
+use crate::monitor::reader::{ContractReader, RLog, ReentrantReader, SeamReader, SegmentedReader, VirtualTailReader};
 use crate::monitor::writer::{BoundedWriter, OffsetWriter, RecordingWriter, WEvent};
 use crate::spec::model::*;
 use rl2tp::avp::types as t;
@@ -49,6 +49,10 @@ pub enum Rk {
     ContractSlice,
     ContractVec,
     Segmented(usize),
+    /// contract reader that performs a nested decode on its n-th call
+    Reentrant(u64),
+    /// the input followed by that many virtual zero octets
+    VirtualTail(usize),
 }
 
 pub const ALL_READERS: [Rk; 4] = [Rk::Slice, Rk::ContractSlice, Rk::ContractVec, Rk::Segmented(3)];
@@ -123,6 +127,30 @@ pub fn decode_msg(b: &[u8], o: Option<SOpts>, rk: Rk) -> Run<SMsg> {
             });
             finish(e, Some(log), |m| m)
         }
+        Rk::Reentrant(trigger) => {
+            let log = RLog::new(boxed.len());
+            let l2 = log.clone();
+            let e = catch(|| {
+                let mut r = ReentrantReader::new(&boxed, l2, trigger);
+                let res = match o {
+                    Some(o) => Message::<Vec<u8>>::try_read_validate(&mut r, glue::opts(o)),
+                    None => Message::<Vec<u8>>::try_read(&mut r),
+                };
+                (res.map(|m| glue::msg_to_spec(&m)), r.remaining())
+            });
+            finish(e, Some(log), |m| m)
+        }
+        Rk::VirtualTail(tail) => {
+            let e = catch(|| {
+                let mut r = VirtualTailReader::new(&boxed, tail);
+                let res = match o {
+                    Some(o) => Message::<Vec<u8>>::try_read_validate(&mut r, glue::opts(o)),
+                    None => Message::<Vec<u8>>::try_read(&mut r),
+                };
+                (res.map(|m| glue::msg_to_spec(&m)), r.remaining())
+            });
+            finish(e, None, |m| m)
+        }
     }
 }
 
@@ -135,7 +163,12 @@ fn conv_list(v: Vec<DecodeResult<AVP>>) -> AvpList {
 /// `AVP::try_read_greedy`
 pub fn decode_avps(b: &[u8], rk: Rk) -> Run<AvpList> {
     let boxed: Box<[u8]> = b.into();
+    let rk = match rk {
+        Rk::Reentrant(_) | Rk::VirtualTail(_) => Rk::ContractVec,
+        k => k,
+    };
     match rk {
+        Rk::Reentrant(_) | Rk::VirtualTail(_) => unreachable!(),
         Rk::Slice => {
             let e = catch(|| {
                 let mut r = SliceReader::from(&boxed);
@@ -230,7 +263,12 @@ pub fn decode_type(attr: u16, payload: &[u8], rk: Rk) -> Option<Run<SAvp>> {
     }
     let boxed: Box<[u8]> = payload.into();
     let one = |r: Result<AVP, DecodeError>| r.map(|a| glue::avp_to_spec(&a)).map_err(|e| vec![e]);
+    let rk = match rk {
+        Rk::Reentrant(_) | Rk::VirtualTail(_) => Rk::ContractVec,
+        k => k,
+    };
     Some(match rk {
+        Rk::Reentrant(_) | Rk::VirtualTail(_) => unreachable!(),
         Rk::Slice => {
             let e = catch(|| {
                 let mut r = SliceReader::from(&boxed);
